@@ -1,6 +1,9 @@
 package dataflow
 
 import (
+	"go/token"
+	"go/types"
+
 	"golang.org/x/tools/go/ssa"
 )
 
@@ -166,3 +169,65 @@ func Harness_C02_paths_3() { c02Run(3, false) }
 
 // Harness_C02_exclusive_3: additionally, a reported condition holds on every path (P-exclusive; known finding).
 func Harness_C02_exclusive_3() { c02Run(3, true) }
+
+// Harness_C02_predicate_applies: a validator condition is attached to a value only if the validated argument covers
+// that value: the value is the argument itself, a field load / tuple component of it, or an interface conversion of
+// one of them - validating one field of a struct does not validate the whole struct.
+func Harness_C02_predicate_applies() {
+	pkg := types.NewPackage("example.com/p", "p")
+	boolT := types.Type(types.Typ[types.Bool])
+	strT := types.Type(types.Typ[types.String])
+	structT := types.NewStruct([]*types.Var{types.NewField(token.NoPos, pkg, "Name", strT, false)}, nil)
+	ptrT := types.NewPointer(structT)
+	sig := types.NewSignatureType(nil, nil, nil, types.NewTuple(types.NewVar(token.NoPos, pkg, "x", strT)), types.NewTuple(types.NewVar(token.NoPos, pkg, "", boolT)), false)
+	callee := &ssa.Function{Signature: sig, Pkg: &ssa.Package{Pkg: pkg}}
+	verifSetUnexported(callee, "name", "Validate")
+	fn := &ssa.Function{Signature: types.NewSignatureType(nil, nil, nil, nil, nil, false), Pkg: &ssa.Package{Pkg: pkg}}
+	verifSetUnexported(fn, "name", "f")
+	blk := &ssa.BasicBlock{Index: 0}
+	verifSetUnexported(blk, "parent", fn)
+	mk := func(i ssa.Instruction, t types.Type) ssa.Value {
+		verifSetUnexported(i, "typ", t)
+		verifSetUnexported(i, "block", blk)
+		return i.(ssa.Value)
+	}
+	// the universe of values: r (pointer to struct), load of r.Name, a second load of r.Name, an unrelated q,
+	// and interface conversions of r and of the field load
+	r := hParam("r")
+	verifSetUnexported(r, "typ", types.Type(ptrT))
+	q := hParam("q")
+	verifSetUnexported(q, "typ", types.Type(ptrT))
+	fa := mk(&ssa.FieldAddr{X: r, Field: 0}, types.NewPointer(strT))
+	ld := mk(&ssa.UnOp{Op: token.MUL, X: fa}, strT)
+	fa2 := mk(&ssa.FieldAddr{X: r, Field: 0}, types.NewPointer(strT))
+	ld2 := mk(&ssa.UnOp{Op: token.MUL, X: fa2}, strT)
+	ir := mk(&ssa.MakeInterface{X: r}, types.NewInterfaceType(nil, nil))
+	ild := mk(&ssa.MakeInterface{X: ld}, types.NewInterfaceType(nil, nil))
+	vals := []ssa.Value{r, ld, ld2, q, ir, ild}
+	// covers[a][v]: validating a validates v. Whole struct r covers its field loads and conversions; a field load
+	// covers (only) loads of the same field and their conversions; q is unrelated to everything else.
+	covers := [][]bool{
+		/* r   */ {true, true, true, false, true, true},
+		/* ld  */ {false, true, true, false, false, true},
+		/* ld2 */ {false, true, true, false, false, true},
+		/* q   */ {false, false, false, true, false, false},
+		/* ir  */ {true, true, true, false, true, true},
+		/* ild */ {false, true, true, false, false, true},
+	}
+	ai := verifPick("validated-argument", 0, len(vals)-1)
+	vi := verifPick("value-reaching-the-sink", 0, len(vals)-1)
+	call := &ssa.Call{}
+	call.Call.Value = callee
+	call.Call.Args = []ssa.Value{vals[ai]}
+	mk(call, boolT)
+	var cond ssa.Value = call
+	if verifBool("negated") {
+		cond = mk(&ssa.UnOp{Op: token.NOT, X: call}, boolT)
+	}
+	got := Condition{IsPositive: true, Value: cond}.IsPredicateTo(vals[vi])
+	verifReach("predicate-checked")
+	verifAssert("condition-attached-only-if-validated-argument-covers-the-value", verifImplies(got, covers[ai][vi]))
+	if ai == vi {
+		verifAssert("validating-a-value-applies-to-that-value", got)
+	}
+}
